@@ -183,8 +183,12 @@ def search(ctx):
             'oracle': 'on the real library (ASan+UBSan build): (enc) three encoders with identical settings and '
                       'lsb_depth 8..16 fed int16 / 256*int16 / int16/32768 give byte-identical packets and final ranges, '
                       'frame by frame, over rates x channels x applications x bitrates x complexity x VBR/CVBR/FEC/DTX x '
-                      'frame sizes 2.5..60 ms x tone/noise/bursts/full-scale/silence; (dec) three decoders (any rate / '
-                      'channel count) on the same packets incl. lost frames and FEC: equal sample counts and final ranges, '
+                      'frame sizes 2.5..60 ms x tone/noise/bursts/full-scale/silence, 40 % of the configurations with '
+                      'OPUS_SET_EXPERT_FRAME_DURATION fixed and the buffer handed in longer than the coded frame (look-ahead for '
+                      'the analysis, caller advancing by the coded duration; biased to complexity >= 7, Fs >= 16 kHz); (dec) three decoders (any rate / '
+                      'channel count) on the same packets incl. lost frames and FEC, 45 % of the streams with OPUS_RESET_STATE on all '
+                      'three at random frame boundaries (reference soft-clip memory cleared at the same points; biased to loud '
+                      'low-frequency content so that the clipper carries state across the boundary): equal sample counts and final ranges, '
                       'int24 == rint(float*2^23), int16 == saturate(rint(32768*softclip(float))) with the library\'s own '
                       'opus_pcm_soft_clip and an independent double-precision reference conversion; (ms) both relations '
                       'through the multistream API (families 0/1/255, 1..8 channels) channel by channel; (proj) projection '
